@@ -8,6 +8,7 @@ import (
 	"regexp"
 	"strconv"
 	"strings"
+	"unicode/utf16"
 )
 
 var stringToNumberParseInteger = regexp.MustCompile(`^(?:0[xX])`)
@@ -94,6 +95,9 @@ func (v Value) float64() float64 {
 		return value
 	case string:
 		return parseNumber(value)
+	case []uint16:
+		// A string held as UTF-16 code units (it contains an unpaired surrogate).
+		return parseNumber(string(utf16.Decode(value)))
 	case *object:
 		return value.DefaultValue(defaultValueHintNumber).float64()
 	}
